@@ -1,0 +1,64 @@
+//go:build verif
+
+/*
+ * Atree - Scalable Arrays and Ordered Maps
+ *
+ * Copyright Flow Foundation
+ *
+ * Licensed under the Apache License, Version 2.0 (the "License");
+ * you may not use this file except in compliance with the License.
+ * You may obtain a copy of the License at
+ *
+ *   http://www.apache.org/licenses/LICENSE-2.0
+ *
+ * Unless required by applicable law or agreed to in writing, software
+ * distributed under the License is distributed on an "AS IS" BASIS,
+ * WITHOUT WARRANTIES OR CONDITIONS OF ANY KIND, either express or implied.
+ * See the License for the specific language governing permissions and
+ * limitations under the License.
+ */
+
+package atree
+
+// Verification hooks for the decoding check (C19): read-only views of the headers a
+// decoded metadata slab carries.  Nothing here changes an existing declaration.
+
+// VerifChildHeader is one child header of a metadata slab as decoded.
+// Count is meaningful for array slabs, FirstKey for map slabs.
+type VerifChildHeader struct {
+	ID       SlabID
+	Size     uint32
+	Count    uint32
+	FirstKey uint64
+}
+
+// VerifMetaHeaders returns, for an array or map metadata slab, its own header
+// (size, count or first key) and the child headers in order.  kind is 2 for an
+// array metadata slab, 3 for a map metadata slab and 0 for any other slab.
+func VerifMetaHeaders(s Slab) (kind int, self VerifChildHeader, children []VerifChildHeader, hasExtraData bool) {
+	switch m := s.(type) {
+	case *ArrayMetaDataSlab:
+		self = VerifChildHeader{ID: m.header.slabID, Size: m.header.size, Count: m.header.count}
+		children = make([]VerifChildHeader, len(m.childrenHeaders))
+		for i, h := range m.childrenHeaders {
+			children[i] = VerifChildHeader{ID: h.slabID, Size: h.size, Count: h.count}
+		}
+		return 2, self, children, m.extraData != nil
+	case *MapMetaDataSlab:
+		self = VerifChildHeader{ID: m.header.slabID, Size: m.header.size, FirstKey: uint64(m.header.firstKey)}
+		children = make([]VerifChildHeader, len(m.childrenHeaders))
+		for i, h := range m.childrenHeaders {
+			children[i] = VerifChildHeader{ID: h.slabID, Size: h.size, FirstKey: uint64(h.firstKey)}
+		}
+		return 3, self, children, m.extraData != nil
+	}
+	return 0, self, nil, false
+}
+
+// VerifArrayMetaCountSums returns the running element-count sums of an array metadata slab.
+func VerifArrayMetaCountSums(s Slab) []uint32 {
+	if m, ok := s.(*ArrayMetaDataSlab); ok {
+		return append([]uint32(nil), m.childrenCountSum...)
+	}
+	return nil
+}
